@@ -181,7 +181,8 @@ fn base_file(id: usize) -> Vec<u8> {
             .set_compression(Compression::ZSTD(ZstdLevel::try_new(1).unwrap()))
             .set_writer_version(WriterVersion::PARQUET_2_0)
             .set_dictionary_enabled(false)
-            .set_encoding(Encoding::DELTA_BINARY_PACKED),
+            .set_column_encoding("i".into(), Encoding::DELTA_BINARY_PACKED)
+            .set_column_encoding("l".into(), Encoding::DELTA_BINARY_PACKED),
         3 => p.set_compression(Compression::GZIP(GzipLevel::try_new(1).unwrap())).set_writer_version(WriterVersion::PARQUET_2_0).set_dictionary_enabled(true),
         4 => p.set_compression(Compression::LZ4_RAW).set_dictionary_enabled(false).set_column_encoding("s".into(), Encoding::DELTA_BYTE_ARRAY),
         5 => p.set_compression(Compression::BROTLI(BrotliLevel::try_new(1).unwrap())).set_dictionary_enabled(false).set_column_encoding("s".into(), Encoding::DELTA_LENGTH_BYTE_ARRAY),
